@@ -34,5 +34,9 @@ PLANS = {
     "C03": {"level": "model_checking", "runs": simple("core", "asm-default")},
     "C09": {"level": "exploration", "runs": simple("core", "asm-default")},
     "C10": {"level": "model_checking", "runs": simple("core", "asm-default")},
+    "C14": {"level": "exploration", "runs": simple("core", "asm-all")},
+    "C15": {"level": "exploration", "runs": simple("core", "asm-all")},
+    "C16": {"level": "model_checking", "runs": simple("core", "asm-all")},
+    "C17": {"level": "model_checking", "runs": simple("core", "asm-all")},
     "C11": {"level": "fault_enumeration", "runs": simple("core", "asm-all", shims={"mmapfail": "VERIF_MMAPFAIL_SO"})},
 }
